@@ -118,7 +118,7 @@ func checkFcallC01(w *mon.W, codec p9p.Codec, fc *p9p.Fcall) {
 		w.NT(fmt.Sprintf("%s/%x", kind, mon.Hash(string(ref))))
 	}
 	desc := func() string { return refcodec.Describe(fc) + " ref=" + hexHead(ref) }
-	if w.WantSample() && w.Rng.Intn(50) == 0 {
+	if w.SampleDue(97) {
 		w.Sample(map[string]interface{}{"message": refcodec.Describe(fc), "reference_bytes": hexHead(ref)})
 	}
 	got, err := codec.Marshal(fc)
